@@ -240,8 +240,8 @@ fn gen_any_frame(r: &mut Rng, cfg: &WorldCfg, avoid: &BTreeSet<String>) -> Frame
     match r.below(16) {
         0..=6 => {
             // authentic downlink carrying MAC commands with arbitrary field values
-            let k = r.range(1, 4) as usize;
-            let macs: Vec<MacSpec> = (0..k).map(|_| gen_mac(r, cfg.region)).collect();
+            let k = if r.chance(1, 5) { r.range(5, 10) } else { r.range(1, 4) } as usize;
+            let macs: Vec<MacSpec> = if r.chance(1, 6) { gen_answer_heavy(r, cfg.region) } else { (0..k).map(|_| gen_mac(r, cfg.region)).collect() };
             let mut d = frame_with_macs(macs, r.chance(1, 5));
             d.confirmed = r.chance(1, 4);
             if d.body == Body::None && r.chance(1, 3) {
